@@ -18,6 +18,9 @@ LIT_ALPHA = list("'\"\\%:aA ;-.]`")
 LIT_ALPHA_SMALL = list("'\\%a")
 ID_ALPHA = list("'\"\\%:aA ;-.]`") + list("[_1$~")
 ID_ALPHA_SMALL = list("\"`]a.%")
+# first-character rule: every digit class (0, a middle digit, 9), underscore, dollar and a letter in first AND later positions
+ID_ALPHA_INITIAL = list("019a_$")
+INITIAL_WORDS = ["007", "00a", "0_day", "0x10", "2024_sales", "99", "a0", "_0", "0_", "$a", "a$"] + ["%dlives" % d for d in range(10)]
 
 
 def enc(s):
@@ -201,6 +204,21 @@ unique update using vacuum values view virtual when where window with without"""
 # not grammar keywords, but read as something else than a column in some position (measured the same way)
 SQLITE_EXTRA_CANDIDATES = ["true", "false", "rowid", "oid", "_rowid_", "abs", "count", "date", "time", "text", "integer", "real", "blob", "any",
                            "stored", "strict", "within", "type", "name", "value", "user", "zone"]
+
+
+def sqlite_illegal_initial(chars):
+    """MEASURE which first characters SQLite does not accept in a bare identifier: c + "a", c + "_x" and c + "9" are each used
+    unquoted as table / column / index name (the battery of sqlite_keywords).  Returns the set of such characters; a mixed verdict
+    for one character means the rule is not a first-character rule (calibration failure)."""
+    bad = set()
+    for c in chars:
+        names = [c + "a", c + "_x", c + "9"]
+        failed = sqlite_keywords(None, names)
+        if len(failed) == len(names):
+            bad.add(c)
+        elif failed:
+            raise ValueError("SQLite's verdict on bare names starting with %r is mixed: %r" % (c, failed))
+    return bad
 
 
 def sqlite_keywords(path, candidates):
